@@ -208,4 +208,121 @@ theorem callSat_of_mem {s : State} (hi : Inv s) {k : Call} (hk : k ∈ s.calls) 
   have := hi.uniqCalls k' hk' k hk hid
   subst this; exact hp
 
+/-! ### a measure of the work left (termination of the shutdown) -/
+
+theorem sum_map_le {α : Type} (l : List α) (w : α → Nat) (g : α → α) (h : ∀ a ∈ l, w (g a) ≤ w a) :
+    ((l.map g).map w).sum ≤ (l.map w).sum := by
+  induction l with
+  | nil => simp
+  | cons a r ih =>
+    have h1 := h a (by simp)
+    have h2 := ih (fun b hb => h b (by simp [hb]))
+    simp only [List.map_cons, List.sum_cons]
+    omega
+
+theorem sum_map_lt {α : Type} (l : List α) (w : α → Nat) (g : α → α) (h : ∀ a ∈ l, w (g a) ≤ w a)
+    (h2 : ∃ a ∈ l, w (g a) < w a) : ((l.map g).map w).sum < (l.map w).sum := by
+  induction l with
+  | nil => obtain ⟨a, ha, _⟩ := h2; cases ha
+  | cons a r ih =>
+    have h1 := h a (by simp)
+    have hle := sum_map_le r w g (fun b hb => h b (by simp [hb]))
+    simp only [List.map_cons, List.sum_cons]
+    obtain ⟨b, hb, hlt⟩ := h2
+    rcases List.mem_cons.mp hb with rfl | hbr
+    · omega
+    · have := ih (fun c hc => h c (by simp [hc])) ⟨b, hbr, hlt⟩
+      omega
+
+def callRank : CPhase → Nat
+  | .sent => 6 | .received => 5 | .started => 4 | .answered => 3 | .queued => 2 | .onWire => 0 | .dropped => 0
+
+def connRank : KPhase → Nat
+  | .open => 4 | .graceful => 3 | .draining => 3 | .writerStop => 2 | .closed => 0
+
+/-- work left: strictly decreased by every step the server takes by itself -/
+def measure (s : State) : Nat :=
+  (s.calls.map (fun y => callRank y.phase)).sum + (s.conns.map (fun x => connRank x.phase)).sum
+    + s.accepting.toNat + (!s.resolved).toNat
+
+theorem calls_lt (s : State) (k : Nat) (f : Call → Call) (p : Call → Bool) (hs : callSat s k p = true)
+    (hf : ∀ y, p y = true → callRank (f y).phase < callRank y.phase) :
+    ((updCall s.calls k f).map (fun y => callRank y.phase)).sum < (s.calls.map (fun y => callRank y.phase)).sum := by
+  rw [callSat_iff] at hs
+  obtain ⟨⟨y0, hy0, hk0⟩, hall⟩ := hs
+  unfold updCall
+  apply sum_map_lt s.calls (fun y => callRank y.phase) (fun y => if y.id == k then f y else y)
+  · intro y hy
+    by_cases hk : y.id = k
+    · simp [hk]; exact Nat.le_of_lt (hf y (hall y hy hk))
+    · simp [hk]
+  · exact ⟨y0, hy0, by simp [hk0]; exact hf y0 (hall y0 hy0 hk0)⟩
+
+theorem conns_lt (s : State) (c : Nat) (f : Conn → Conn) (p : Conn → Bool) (hs : connSat s c p = true)
+    (hf : ∀ x, p x = true → connRank (f x).phase < connRank x.phase) :
+    ((updConn s.conns c f).map (fun x => connRank x.phase)).sum < (s.conns.map (fun x => connRank x.phase)).sum := by
+  rw [connSat_iff] at hs
+  obtain ⟨⟨y0, hy0, hk0⟩, hall⟩ := hs
+  unfold updConn
+  apply sum_map_lt s.conns (fun x => connRank x.phase) (fun x => if x.id == c then f x else x)
+  · intro y hy
+    by_cases hk : y.id = c
+    · simp [hk]; exact Nat.le_of_lt (hf y (hall y hy hk))
+    · simp [hk]
+  · exact ⟨y0, hy0, by simp [hk0]; exact hf y0 (hall y0 hy0 hk0)⟩
+
+theorem measure_decreases (s : State) (hn : s.resolved = false) (op : Op) (hint : internal op = true)
+    (he : enabled s op = true) : measure (apply s op) < measure s := by
+  cases op <;> simp only [internal] at hint <;> try contradiction
+  all_goals simp only [enabled] at he
+  case wsRead k =>
+    have := calls_lt s k (fun y => { y with phase := .received }) _ he (by intro y hy; simp at hy; simp [hy.1, callRank])
+    simp only [measure, apply, setCallPhase]; omega
+  case callStart k =>
+    have := calls_lt s k (fun y => { y with phase := .started, startLate := s.resolved }) _ he (by intro y hy; simp at hy; simp [hy, callRank])
+    simp only [measure, apply]; omega
+  case httpRead k =>
+    have := calls_lt s k (fun y => { y with phase := .started, startLate := s.resolved }) _ he (by intro y hy; simp at hy; simp [hy.1.1, callRank])
+    simp only [measure, apply]; omega
+  case handlerReturn k =>
+    have := calls_lt s k (fun y => { y with phase := .answered }) _ he (by intro y hy; simp at hy; simp [hy, callRank])
+    simp only [measure, apply, setCallPhase]; omega
+  case enqueue k =>
+    have := calls_lt s k (fun y => { y with phase := if connClosed s y.conn then .dropped else .queued }) _ he
+      (by intro y hy; simp at hy; simp only [hy.1]; split <;> simp [callRank])
+    simp only [measure, apply]; omega
+  case writerStep k =>
+    have := calls_lt s k (fun y => { y with phase := if gone s y.conn then .dropped else .onWire }) _ he
+      (by intro y hy; simp at hy; simp only [hy.1]; split <;> simp [callRank])
+    simp only [measure, apply]; omega
+  case httpWrite k =>
+    have := calls_lt s k (fun y => { y with phase := if gone s y.conn then .dropped else .onWire }) _ he
+      (by intro y hy; simp at hy; simp only [hy.1]; split <;> simp [callRank])
+    simp only [measure, apply]; omega
+  case acceptExit =>
+    simp at he
+    simp [measure, apply, he.2]
+  case observeStop c =>
+    simp only [Bool.and_eq_true] at he
+    have := conns_lt s c (fun x => { x with phase := if x.tr == .http then .graceful else .draining }) _ he.2
+      (by intro x hx; simp at hx; simp only [hx]; split <;> simp [connRank])
+    simp only [measure, apply]; omega
+  case wsDrained c =>
+    have := conns_lt s c (fun x => { x with phase := .writerStop }) _ he
+      (by intro x hx; simp at hx; rcases hx.2 with h | h <;> simp [h.1, connRank])
+    simp only [measure, apply, setConnPhase]; omega
+  case writerExit c =>
+    have := conns_lt s c (fun x => { x with phase := .closed }) _ he
+      (by intro x hx; simp at hx; simp [hx.1.2, connRank])
+    simp only [measure, apply, setConnPhase]; omega
+  case httpClose c =>
+    have h1 := conns_lt s c (fun x => { x with phase := .closed }) _ he
+      (by intro x hx; simp at hx; have := hx.1.2; cases hp : x.phase <;> simp_all [connRank])
+    have h2 := sum_map_le s.calls (fun y => callRank y.phase)
+      (fun y => if y.conn == c && isInflight y.phase then { y with phase := .dropped } else y)
+      (by intro y _; split <;> simp [callRank])
+    simp only [measure, apply]; omega
+  case resolve =>
+    simp [measure, apply, hn]
+
 end Jrpc.Stop
